@@ -882,7 +882,6 @@ impl SortedWritesTable {
                             }
                             use hashbrown::hash_table::Entry;
                             checker.check_local(row);
-                            changed = true;
                             let key = &row[0..n_keys];
                             let (_actual_shard, hc) = hash_code(shard_data, row, n_keys);
                             #[cfg(any(debug_assertions, test))]
